@@ -2,7 +2,7 @@
     harness wrote (real fabio outputs next to the inputs that produced them). *)
 From Coq Require Import String List NArith ZArith Bool.
 From Fabio Require Import Lib.Outcome Lib.Bytes Lib.Verdict
-     Model.FlagSet Model.KVSlice Model.GlobCacheSize Model.StartUp Model.LoadArgs.
+     Model.FlagSet Model.KVSlice Model.GlobCacheSize Model.StartUp Model.LoadArgs Model.EnumOptions.
 Import ListNotations.
 Local Open Scope N_scope.
 
@@ -80,6 +80,19 @@ Inductive case :=
               (arrs : list arrangement) (outs : list N) (eqs : list bool)
 (* the ui.addr block of load() on a degenerate value: out as above *)
 | CUiAddr (v : list N) (out : N)
+(* proxy.strategy / proxy.matcher / ui.access from any combination of sources, config.Load and
+   then what main() builds from the configuration (driver /repo/verif_c15_test.go):
+   [out] 0 configuration, 1 error, 3 PANIC, 5 neither; [stored] = the three fields of the
+   returned configuration; per probe: the consumer (0 HTTPProxy.Lookup of newHTTPProxy,
+   1 lookupHostFn, 2 lookupHostMatcher, 3 gRPC interceptor), the host keys the lookup tries with
+   their routes (what route.Matcher's three functions say about the probe's path, number of
+   targets), the outcome (0 a target, 1 none, 3 PANIC) and, where the consumer hands the target
+   out, the key and route it belongs to; [mode] = the admin server's manual-override endpoints:
+   0 forbidden, 1 served, 2 not registered, 3 PANIC; [alternates] = 40 lookups on a two-target
+   route alternate strictly *)
+| CEnum (arr : arrangement) (out : N) (stored : str * str * str)
+        (probes : list (N * list (list en_route) * N * option (N * N)))
+        (mode : N) (alternates : option bool)
 (* parseKVSlice([]rune): [want] = the maps the input was generated from, when it was *)
 | CKV (input : list N) (want : option (list smap)) (impl : kvresult)
 (* lex([]rune): item type (0 text 1 equal 2 semicolon 3 comma 4 error), value, n *)
@@ -120,6 +133,27 @@ Definition model_final (name : str) (isbool : bool) (a : arrangement) : outcome 
   | Ok _ => Err 99
   | Err k => Err k
   | Panic => Panic
+  end.
+
+(* short constructor for the generated cases *)
+Definition rt (p g i : bool) (n : N) : en_route :=
+  {| rt_prefix := p; rt_glob := g; rt_iprefix := i; rt_targets := n |}.
+
+Definition en_found_route (f : en_found) : nat :=
+  match f with FoundOnly i => i | FoundPicked i _ => i end.
+
+Definition enum_probe_same (c : enum_cfg) (pr : N * list (list en_route) * N * option (N * N)) : bool :=
+  let '(site, keys, o, loc) := pr in
+  match en_site_lookup c site keys with
+  | Panic => o =? 3
+  | Err _ => false
+  | Ok None => o =? 1
+  | Ok (Some (h, f)) =>
+      (o =? 0)
+      && match loc with
+         | Some (hi, ri) => (N.of_nat h =? hi) && (N.of_nat (en_found_route f) =? ri)
+         | None => (site =? 2) || (site =? 3)      (* these consumers do not hand the target out *)
+         end
   end.
 
 Definition check_case (c : case) : N :=
@@ -224,6 +258,35 @@ Definition check_case (c : case) : N :=
                   | Ok (Some _) => (out =? 0) || (out =? 1)      (* parseListen decides *)
                   end in
       verdict same (negb (out =? 3)) None (match m with Err 2 => true | _ => false end)
+  | CEnum arr out stored probes mode alternates =>
+      let m := load_enums_from (a_args arr) (a_env arr) (a_props arr) in
+      let '(st_s, st_m, st_a) := stored in
+      let same :=
+        match m with
+        | Ok c =>
+            (out =? 0)
+            && beq st_s (e_strategy c) && beq st_m (e_matcher c) && beq st_a (e_access c)
+            && forallb (enum_probe_same c) probes
+            && (mode =? match admin_mode_of (e_access c) with
+                        | Some AdminForbidden => 0 | Some AdminManual => 1 | None => 2 end)
+            && opt_eqb Bool.eqb alternates
+                       (Some (match picker_of (e_strategy c) with Some PickRR => true | _ => false end))
+        | Err k => (k =? 1) && (out =? 1)
+        | Panic => out =? 3
+        end in
+      (* the property on the observables: an error or a configuration, never a panic; with an
+         accepted configuration no consumer panics and the admin server implements the mode *)
+      let spec :=
+        negb (out =? 3)
+        && (negb (out =? 0)
+            || (forallb (fun pr : N * list (list en_route) * N * option (N * N) =>
+                           negb (snd (fst pr) =? 3)) probes
+                && (mode <? 2))) in
+      let given := match parse_flags enum_flags en_no_bad (a_args arr) (a_env arr) fabio_prefixes (a_props arr) with
+                   | Ok rs => existsb (fun r => r_set r) rs
+                   | _ => false
+                   end in
+      verdict same spec None given
   | CArgs args impl =>
       let m := config_parse args in
       let same := out_eqb (fun a b : list str * str * bool =>
